@@ -130,6 +130,7 @@ def x_points(cls: str, p: list[float], tier: str, seed: int) -> list[float]:
     for b in bps:
         lo = hi = b
         pts.add(b)
+        pts.update((b - 2.0**-12, b + 2.0**-12))  # inside the library comparison tolerance (1e-3) of the break point
         for _ in range(steps):
             lo = math.nextafter(lo, -INF)
             hi = math.nextafter(hi, INF)
